@@ -9,8 +9,8 @@
   Accounts that are not active validators cannot open or vote on allegations."
 
   Theorems are over the model `OLP.Alleg` (a port of the Go code as written, tied to it by the
-  `alleg` correspondence engine).  Seven deviations this check found in the code were repaired
-  (7eb2406, 73dca0f, 6709f41, 1d3139c, 8e5280a, df2e1ab, 92417eb); the clauses they concerned are
+  `alleg` correspondence engine).  Eight deviations this check found in the code were repaired
+  (7eb2406, 73dca0f, 6709f41, 1d3139c, 8e5280a, df2e1ab, 92417eb, d2f2af2); the clauses they concerned are
   proved at full strength now and their former counterexamples are kept as regression examples
   (`decide`), the harness replays the same scenarios on the implementation
   (harness/apph/alleg_script.go, corpus/C19).
@@ -35,7 +35,7 @@ def prev4 : List (Addr × ValRec) := [("a0", ⟨"s0", 10⟩), ("a1", ⟨"s1", 10
 /-- four active validators, one open request `r1` by `a0` against `a3` with the given votes -/
 def sampleState (votes : List Vote) : State :=
   { State.empty with
-    reqs := [("r1", ⟨"a0", "a3", 5, 1, votes⟩)], committed := ["r1"], tracker := ["r1"],
+    reqs := [("r1", ⟨"a0", "a3", 5, 1, votes⟩)], tracker := ["r1"],
     vstat := [("a0", ⟨true, 2⟩), ("a1", ⟨true, 2⟩), ("a2", ⟨true, 2⟩), ("a3", ⟨true, 2⟩)],
     total := [("a3", 15)], vd := [(("a3", "s3"), 15)], de := [("s3", 15)], db := [("s3", 4)] }
 
@@ -154,45 +154,63 @@ theorem no_active_no_verdict (F : FloatOps) (env : Env) (st : State) (h : ¬ Tal
 theorem tracker_is_a_set (ops : List Op) : (run State.empty ops).tracker.Nodup :=
   run_trackerNodup State.empty ops (by simp [State.empty])
 
-/-
-  FULL STATEMENT (false of the code): every tracked request keeps its place until its own votes
-  decide it:  `cleanTracker st = st` for every reachable `st`.
-  The existence check of PerformAllegation iterates the keys of the COMMITTED tree only
-  (`State.IterateRange`), so two allegations against one address in ONE block both succeed;
-  `CleanTracker` then deletes the second (in id order) at the block end, whatever votes it holds.
-  Forced hypothesis: at most one open request per address.  (The other way a request used to
-  vanish — the empty request id — was repaired by 8e5280a.)
--/
-theorem cleanup_keeps_requests_partial (st : State) (hnd : st.tracker.Nodup)
-    (hinj : ∀ i j a b, alookup i st.reqs = some a → alookup j st.reqs = some b → a.accused = b.accused → i = j) :
-    cleanTracker st = st :=
-  cleanTrackerWith_noop st.tracker st hnd hinj
+/-- every tracked request keeps its place until its own votes decide it: in every reachable state
+    the cleanup step of the tally (`CleanTracker`) changes nothing.  Full strength since d2f2af2:
+    the duplicate check of PerformAllegation (`IterateRequests`, now `IterateRangeAll`) sees the
+    requests opened earlier in the same block, so no two open requests are ever against one
+    address (`one_open_request_per_address`), which is all `CleanTracker` looks for (it walks the
+    tracker record, not store keys). -/
+theorem cleanup_keeps_requests (ops : List Op) : cleanTracker (run State.empty ops) = run State.empty ops :=
+  cleanTrackerWith_noop _ _ (run_trackerNodup State.empty ops (by simp [State.empty]))
+    (run_onePerAccused State.empty ops (by intro i j a b ha; simp [State.empty] at ha))
 
-/-- counterexample for the full statement: two requests against `a3` opened in one block; the
-    second in id order is deleted at the block end although it holds the deciding votes -/
-theorem duplicate_request_dropped :
-    let st : State := { sampleState [] with
-      reqs := [("r1", ⟨"a0", "a3", 5, 1, []⟩), ("r2", ⟨"a1", "a3", 5, 1, [⟨"a0", 1⟩, ⟨"a1", 1⟩, ⟨"a2", 1⟩]⟩)],
-      committed := [], tracker := ["r1", "r2"] }
-    verdictOf (env4 6 600) st.vstat ⟨"a1", "a3", 5, 1, [⟨"a0", 1⟩, ⟨"a1", 1⟩, ⟨"a2", 1⟩]⟩ = .guilty ∧
-    alookup "r2" (tally exactOps (env4 6 600) st).reqs = none ∧
-    isFrozen (tally exactOps (env4 6 600) st) "a3" = false := by
-  simp only [tally]
-  rw [tallyWith_core _ _ _ _ _ (by decide) (by decide)]
-  decide
+theorem one_open_request_per_address (ops : List Op) : OnePerAccused (run State.empty ops) :=
+  run_onePerAccused State.empty ops (by intro i j a b ha; simp [State.empty] at ha)
+
+/-- a second allegation against an address that already has an open request is refused, also
+    inside the block in which the first was opened, and changes nothing -/
+theorem second_allegation_refused (st : State) (h : Int) (rep acc : Addr) (id : ReqId) (bh : Int) (sig fee : Bool)
+    (j : ReqId) (b : Request) (hb : alookup j st.reqs = some b) (hacc : b.accused = acc) :
+    (txAllege st h rep acc id bh sig fee).1 ≠ .ok ∧ (txAllege st h rep acc id bh sig fee).2 = st := by
+  have hex : requestExists st acc = true := by
+    cases hc : requestExists st acc with
+    | true => rfl
+    | false => exact absurd hacc (requestExists_false hc j b hb)
+  have hr : (runAllege st h rep acc id bh).1 ≠ .ok := by
+    unfold runAllege performAllegation
+    repeat' split
+    all_goals simp_all
+  unfold txAllege withAdmission
+  generalize runAllege st h rep acc id bh = r at *
+  obtain ⟨res, st'⟩ := r
+  cases sig <;> cases fee <;> cases res <;> simp_all
+
+/-- regression (was `duplicate_request_dropped`): with `r1` against `a3` open (opened in this very
+    block or earlier), a second allegation against `a3` is refused as existing -/
+example : (txAllege (sampleState []) 6 "a1" "a3" "r2" 5 true true).1 = .exists := by decide
+
+/-- in a reachable state the cleanup step is the identity, so the request is the stored one -/
+theorem tally_follows_verdict_reachable (F : FloatOps) (env : Env) (ops : List Op) (id : ReqId) (ar : Request)
+    (hrun : TallyRuns env) (hid : id ∈ (run State.empty ops).tracker) (har : alookup id (run State.empty ops).reqs = some ar) :
+    let st := run State.empty ops
+    (verdictOf env st.vstat ar = .guilty → alookup ar.accused (tally F env st).susp = some (byzRec env)) ∧
+    (verdictOf env st.vstat ar = .none → alookup id (tally F env st).reqs = some ar) ∧
+    (verdictOf env st.vstat ar = .innocent ∨ (verdictOf env st.vstat ar = .guilty ∧ (alookup ar.accused env.prev).isSome) →
+        alookup id (tally F env st).reqs = none) :=
+  tally_follows_verdict F env _ id ar hrun hid (by rw [cleanup_keeps_requests ops]; exact har)
 
 /-- regression (was `empty_id_request_dropped`): three yes votes of the four active validators
     under the EMPTY request id convict like under any other id -/
 example :
     let st : State := { sampleState [] with
-      reqs := [("", ⟨"a0", "a3", 5, 1, [⟨"a0", 1⟩, ⟨"a1", 1⟩, ⟨"a2", 1⟩]⟩)], committed := [""], tracker := [""] }
+      reqs := [("", ⟨"a0", "a3", 5, 1, [⟨"a0", 1⟩, ⟨"a1", 1⟩, ⟨"a2", 1⟩]⟩)], tracker := [""] }
     alookup "" (tally exactOps (env4 6 600) st).reqs = none ∧
     alookup "a3" (tally exactOps (env4 6 600) st).susp = some (byzRec (env4 6 600)) := by
   simp only [tally]
   rw [tallyWith_core _ _ _ _ _ (by decide) (by decide)]
   decide
 
-example : -- the hypotheses of `cleanup_keeps_requests_partial` and `tally_follows_verdict` are satisfiable
+example : -- the hypotheses of `tally_follows_verdict` are satisfiable
     (sampleState [⟨"a0", 1⟩, ⟨"a1", 1⟩]).tracker.Nodup ∧ TallyRuns (env4 6 600) ∧
     verdictOf (env4 6 600) (sampleState []).vstat ⟨"a0", "a3", 5, 1, [⟨"a0", 1⟩, ⟨"a1", 1⟩]⟩ = .guilty ∧
     verdictOf (env4 6 600) (sampleState []).vstat ⟨"a0", "a3", 5, 1, [⟨"a0", 1⟩, ⟨"a1", 2⟩]⟩ = .none ∧
